@@ -1,4 +1,7 @@
 import PugModel.Tpl.Quote
+import PugProofs.C06.Quote
+import PugProofs.C06.Static
+import PugModel.Driver.Render
 import PugModel.Tpl.Compile
 import PugModel.Pug.Spec
 /-!
@@ -21,38 +24,10 @@ theorem C06_void_table :
     (Gen.voidTags.all fun t => Spec.voidElements.contains t) = true ∧
     (Spec.voidElements.all fun t => Gen.voidTags.contains t) = true := by decide
 
-/-! ## the quoting prints the text -/
+/-! ## the quoting prints the text (lemmas in PugProofs/C06/Quote.lean) -/
 
-@[simp] theorem flush_nil : flush [] = [] := by simp [flush]
-
-theorem outputOf_append (a b : List Piece) : outputOf (a ++ b) = outputOf a ++ outputOf b := by
-  induction a with
-  | nil => rfl
-  | cons p rest ih => cases p <;> simp [outputOf, ih]
-
-theorem outputOf_flush (cur : List Char) : outputOf (flush cur) = cur.reverse := by
-  unfold flush; split
-  · rename_i h; simp [List.isEmpty_iff] at h; simp [h, outputOf]
-  · simp [outputOf]
-
-theorem quote_output_gen (t cur : List Char) : outputOf (quoteL t cur) = cur.reverse ++ t := by
-  induction t generalizing cur with
-  | nil => simp [quoteL, outputOf_flush]
-  | cons c rest ih =>
-    unfold quoteL
-    split
-    · rename_i hc; subst hc
-      split
-      · simp [outputOf_append, outputOf_flush, outputOf, quoteL]
-      · rename_i d r2
-        split
-        · simp [outputOf_append, outputOf_flush, outputOf, ih]
-        · simp [ih]
-    · simp [ih]
-
-/-- **C06 (literal text, byte for byte).** -/
-theorem C06_quote_output (t : List Char) : outputOf (quoteL t []) = t := by
-  simpa using quote_output_gen t []
+/-- **C06 (quoted text prints as the text).** For EVERY text: executing the pieces the quoting produces prints the text. -/
+theorem C06_quote_output (t : List Char) : outputOf (quoteL t []) = t := quote_output t
 
 /-! ## the lexer finds the boundaries where the quoting put them -/
 
@@ -246,5 +221,36 @@ theorem C06_quote_no_trailing_brace (t : List Char) :
 example : quoteL "f(){}}".toList [] = [some "f(){}}".toList] := by decide
 example : quoteL "x{".toList [] = [some ['x'], none] := by decide
 example : quoteL "a{{{b".toList [] = [some ['a'], none, none, some ['{', 'b']] := by decide
+
+/-! ## whole static documents: structure and text reproduced, for every tree
+
+`staticListF` accepts text (any characters, braces included), doctype and tags without attributes other than `script`, nested
+to any depth; `serListF` is the reference serialisation (start tag, children, end tag; void elements without children and end
+tag). The stage lemmas - transpile, merge texts, trim markers, nesting by the template parser, execution - are in
+`PugProofs/C06/Static.lean`. -/
+
+open Pug.Props.C06S Pug.Driver in
+/-- **C06 (static structure and text, whole documents).** For EVERY static document, whatever the data: the model of
+LoadTemplates + Render (transpiler, text merging, trim markers, template parser, executor) prints exactly the reference
+serialisation of the tree - every start tag, every end tag in the right place, every text byte for byte. -/
+theorem C06_static_render (doc : List Node) (data : Lean.Json) (h : staticListF nodeFuel doc = true) :
+    ∃ frags, compileNodes { funcs := engineFuncs ++ [], parserFuncs := engineFuncs ++ [] ++ builtinNames } doc = .ok frags ∧
+      (frags.length + 2 < 100000000 → renderModel doc data [] false = okOut (serListF nodeFuel doc)) := by
+  obtain ⟨frags, h1, h2, h3, h4⟩ := compileDoc_static
+    { funcs := engineFuncs ++ [], parserFuncs := engineFuncs ++ [] ++ builtinNames } rfl doc h
+  refine ⟨frags, h1, fun hlen => ?_⟩
+  have hm := merge_plain frags.length frags (Nat.le_refl _) h2
+  have hl := merge_length frags.length frags (Nat.le_refl _)
+  have hw := walk_nodes { defs := [] } (mergeTexts frags) hm.1 (initState data) 100000000 (by omega)
+  have hout : (initState data).out = "" := by
+    unfold initState
+    cases convertData data Heap.empty with
+    | mk hp v => cases v <;> simp
+  simp only [renderModel, h4, StateT.run, hw, hm.2, h3, hout, String.empty_append]
+
+open Pug.Props.C06S in
+/-- non-vacuity: `div > (p > "a{" , br , "x") , "}}"` is static -/
+example : staticListF 7 [.tag "div" false [] [] [.tag "p" true [] [] [.text "a{"], .tag "br" false [] [] [], .text "x"], .text "}}"]
+    = true := by decide
 
 end Pug.Props.C06
